@@ -18,7 +18,11 @@ SLASHES = ['/', '|', 'a/b', '1|2']
 BACKSLASH = ['\\', 'a\\b']
 QUIRKS = [')[conj]', '][conj]', 'x)[conj]', '((S[b]\\NP)/NP)/', 'ID=1', '_', '*', 'a_b', ',', '.', '%', '#', '!', '-', 'e-mail', '1.5']
 NONASCII = ['é', '日本', 'ü(']
-ALL_TOKENS = SIMPLE + BRACKETS + ESCAPES + XMLISH + SLASHES + BACKSLASH + QUIRKS + NONASCII
+# further values: full-width, non-BMP and combining characters, a very long word, words that look like reserved words / categories / markup
+# of some format, two-digit numbers, the remaining printable ASCII punctuation
+VALUES2 = ['\uff57\uff49\uff44\uff45', '\U0001F600', 'e\u0301', 'x' * 300, 'FAILED', '-LCB-', '-RCB-', '-RSB-', '10', 'NP', 'S[dcl]', '<T', '=', 'a=b', ':', ';',
+           '``', "''", '$', '@', '+', '^', '~', '`', '?', 'ID=1,', '###']
+ALL_TOKENS = SIMPLE + BRACKETS + ESCAPES + XMLISH + SLASHES + BACKSLASH + QUIRKS + NONASCII + VALUES2
 
 
 def tokens_for(kind):
